@@ -12,6 +12,8 @@ C18 driver.  One stateful sequence per `reset`.  Case lines (`b` backend index, 
   send b id             sendKeepAliveToBackend(b)         → <0|1> writes
   sendnil id            sendKeepAliveToBackend(nil)       → 0 -
   consume b id          consumePendingKeepAlive           → <0|1>
+  new                   newServerConnection: the next backend index (4, 5, …)   → -
+  disc b                serverConnection.disconnect                             → -
   cur b|-  infl b|-     setConnectedServer / setInFlightConnection → -
   state b s             backend protocol state (h|s|l|c|p) → -
   closed b 0|1, conn b 0|1                                 → -
@@ -34,9 +36,9 @@ def parseSt : String → Option St
 def parseOptNat (s : String) : Option (Option Nat) :=
   if s = "-" then some none else s.toNat?.map some
 
-/-- delta of `written` between two systems on backends 0..3, as `b:id` tokens in backend order -/
+/-- delta of `written` between two systems on backends 0..15, as `b:id` tokens in backend order -/
 def delta (s s' : Sys) : List (Nat × Int) :=
-  (List.range 4).flatMap fun b =>
+  (List.range 16).flatMap fun b =>
     (((s'.bs b).written.drop (s.bs b).written.length).map fun i => (b, i))
 
 def showWrites (ws : List (Nat × Int)) : String :=
@@ -85,6 +87,13 @@ def step (s : Sys) (c : Case) : Sys × String × String :=
   match c.op, c.args with
   | "reset", _ => ({}, "-", "-")
   | "cap", _ => (s, toString cap, "-")
+  -- a backend index not used before IS a fresh serverConnection (empty LRU, connected, PLAY)
+  | "new", _ => (s, "-", "-")
+  -- serverConnection.disconnect: close the connection if it is still there, then forget it; the LRU stays
+  | "disc", [b] => (match b.toNat? with
+    | some b =>
+      if (s.bs b).hasConn then (act (act s (.setClosed b true)) (.setConn b false), "-", "-") else (s, "-", "-")
+    | none => (s, "bad-op", "-"))
   | "rec", [b, i] => match b.toNat?, i.toInt? with
     | some b, some i => ((act s (.record b i)).gc, "-", "-")
     | _, _ => (s, "bad-op", "-")
